@@ -458,7 +458,7 @@ def discharge(obls, timeout_ms=30000, seed=0, workers=None, queries=None, cross_
     for o in obls:
         if o.result is not None:
             continue
-        tasks.append(dict(name=o.name, smt2=to_smt2(o.pc, o.goal), timeout_ms=timeout_ms, seed=seed,
+        tasks.append(dict(name=o.name, smt2=(getattr(o, 'smt2', None) or to_smt2(o.pc, o.goal)), timeout_ms=timeout_ms, seed=seed,
                           queries=(queries(o) if queries else [])))
     byname = {o.name: o for o in obls}
     if not tasks:
